@@ -19,7 +19,14 @@ the same per-environment keys and start states (on-policy PPO/A2C/REINFORCE, off
 per-environment replay buffers); per-environment advantages must equal the float64 GAE reference on that
 environment's own stream; on deterministic finite MDPs with a key-independent table policy and distinct
 start states the N rollouts captured at the `train` boundary of the real `iteration` must equal N
-pure-Python interpreter rollouts; stateful policies must keep one private call counter per environment.
+pure-Python interpreter rollouts; stateful policies must keep one private call counter per environment;
+reset()/iteration() of every algorithm must hand each environment its own key.
+
+Violation keys: <function>-<mode>-differs-from-jit-<Env>, <function>-raises-under-<mode>-<Env>,
+<function>-{jit,eager}-answer-depends-on-call-history-<Env>, <function>-vmap-answer-depends-on-batch-position-<Env>,
+{onpolicy,offpolicy,...}-vectorised-<field>-differs-from-single-env-collection, advantages-not-gae-of-own-stream,
+parallel-rollout-<field>-differs-from-interpreter, policy-state-of-one-env-not-its-own-counter,
+{reset,iteration}-gives-parallel-envs-the-same-key, ...
 """
 
 from __future__ import annotations
@@ -35,7 +42,7 @@ RULE = ("env half: case = one execution (a jit call on one pool item, an eager c
         "the float64 GAE reference, or the pure-Python interpreter / call-counter model; non-trivial = N >= 2 and "
         "the stream contains >= 1 episode end (interpreter / counter cases) or differs from another "
         "environment's stream (twin cases)")
-FLOOR = {"quick": 300, "thorough": 1500}
+FLOOR = {"quick": 1500, "thorough": 6000}
 ASSUMPTIONS = [
     "per-item eqx.filter_jit evaluation is the reference the other modes are compared with (mode equivalence is "
     "the property itself); eager = plain Python call of the method (diffrax / lax.scan still compile their bodies)",
@@ -326,16 +333,25 @@ def _varies(outs):
     return False
 
 
-def _perturb_inputs(rng, s, a, ns, scale=3e-6, abs_scale=1e-7):
+def _perturbed(rng, x, scale, abs_scale=0.0):
+    """x * (1 + scale*u) + abs_scale*u' with the same shape, dtype and weak-typedness (so that a jitted function is
+    not re-traced by the probe)."""
     import jax
     from jax import numpy as jnp
 
-    def p(x):
-        if isinstance(x, jax.Array) and jnp.issubdtype(x.dtype, jnp.floating):
-            u = rng.uniform(-1, 1, size=x.shape)
-            return (x * (1 + scale * u) + abs_scale * rng.uniform(-1, 1, size=x.shape)).astype(x.dtype)
+    if not (isinstance(x, jax.Array) and jnp.issubdtype(x.dtype, jnp.floating)):
         return x
+    v = np.asarray(x, np.float64)
+    v = v * (1 + scale * rng.uniform(-1, 1, size=v.shape)) + abs_scale * rng.uniform(-1, 1, size=v.shape)
+    if x.weak_type and x.shape == ():
+        return jnp.asarray(float(np.asarray(v, x.dtype)))
+    return jnp.asarray(v, dtype=x.dtype)
 
+
+def _perturb_inputs(rng, s, a, ns, scale=3e-6, abs_scale=1e-7):
+    import jax
+
+    p = lambda x: _perturbed(rng, x, scale, abs_scale)  # noqa: E731
     return jax.tree.map(p, s), jax.tree.map(p, a), jax.tree.map(p, ns)
 
 
@@ -393,7 +409,7 @@ class _EnvJudge:
             jax.block_until_ready(out)
             return out
         except Exception as ex:
-            self.viol(f"{fn}-raises-under-{mode}", {"fn": fn, "mode": mode, "error": f"{type(ex).__name__}: {str(ex)[:400]}"})
+            self.viol(f"{fn}-raises-under-{_kmode(mode)}", {"fn": fn, "mode": mode, "error": f"{type(ex).__name__}: {str(ex)[:400]}"})
             return _RAISED
 
     def _judge(self, fn, mode, want, got, inputs, detail, varies):
@@ -404,7 +420,7 @@ class _EnvJudge:
             if self._threshold_tie(fn, inputs, want):
                 ctx.monitor("threshold_ties_excused")
                 return True
-            self.viol(f"{fn}-{mode}-differs-from-jit", {"fn": fn, "mode": mode, **detail, **bad})
+            self.viol(f"{fn}-{_kmode(mode)}-differs-from-jit", {"fn": fn, "mode": mode, **detail, **bad})
             return False
         if bad is None:
             bad = _cmp(want, got, self.tol, fn, skip_exact=True)
@@ -422,7 +438,7 @@ class _EnvJudge:
                 return True
             bad = {**bad2, "probe_effect_on_leaf": dev.get(bad2.get("leaf"), 0.0)}
         if bad is not None:
-            self.viol(f"{fn}-{mode}-differs-from-jit", {"fn": fn, "mode": mode, **detail, **bad})
+            self.viol(f"{fn}-{_kmode(mode)}-differs-from-jit", {"fn": fn, "mode": mode, **detail, **bad})
             return False
         return True
 
@@ -431,6 +447,18 @@ class _EnvJudge:
         parameters included -- is perturbed by about two ulps?  {leaf path: max abs change}."""
         s, a, ns, k = inputs
         dev = {}
+        # the probe is only meaningful if the reference is a function of its arguments: identical values, rebuilt
+        # arrays, must reproduce the reference answer bit for bit
+        zs, za, zns = _perturb_inputs(self.ctx.rng, s, a, ns, scale=0.0, abs_scale=0.0)
+        try:
+            o0 = self.jf[fn](_perturb_floats(self.ctx.rng, self.env, 0.0), zs, za, zns, k)
+        except Exception:
+            return {}
+        self.ctx.monitor("repeat_calls_bit_compared")
+        if not _bits_equal(want, o0):
+            self.viol(f"{fn}-jit-answer-depends-on-call-history", {"fn": fn, "after": "same argument values in rebuilt arrays",
+                                                                   "diff": _cmp(want, o0, lambda p, f: (0.0, 0.0), fn)})
+            return {}
         for _ in range(3):
             ps, pa, pns = _perturb_inputs(self.ctx.rng, s, a, ns, scale=ULP_SCALE, abs_scale=0.0)
             env_p = _perturb_floats(self.ctx.rng, self.env, ULP_SCALE)
@@ -495,7 +523,7 @@ class _EnvJudge:
                 self.viol(f"{fn}-jit-answer-depends-on-call-history",
                           {"fn": fn, "i": int(i), "diff": _cmp(ref[int(i)], o, lambda p, f: (0.0, 0.0), fn)})
         # ---- eager: a, b, a, (c, b) ...
-        ne = plan["eager_heavy"] if fn in HEAVY else plan["eager"]
+        ne = plan["eager_heavy"] if fn in plan.get("heavy", HEAVY) else plan["eager"]
         if ne > 0:
             pattern = [0]
             for m in range(1, ne):
@@ -518,7 +546,7 @@ class _EnvJudge:
                 else:
                     first[i] = o
         # ---- plain jax.jit with the environment closed over (its arrays become compile-time constants)
-        nc = plan.get("closure_jit", 0) if (fn not in HEAVY or plan.get("closure_jit_heavy", True)) else 0
+        nc = plan.get("closure_jit", 0) if (fn not in plan.get("heavy", HEAVY) or plan.get("closure_jit_heavy", True)) else 0
         if nc:
             cj = jax.jit(lambda s, a, ns, k: f(env, s, a, ns, k))
             for i in [int(x) for x in rng.permutation(N)[:nc]]:
@@ -541,7 +569,7 @@ class _EnvJudge:
                      cls=f"{self.kind}/{fn}/disable_jit")
             self._judge(fn, "disable_jit", ref[i], o, item(i), {"i": i}, varies)
         # ---- vmap over batches
-        sizes = plan["sizes_heavy"] if fn in HEAVY else plan["sizes"]
+        sizes = plan["sizes_heavy"] if fn in plan.get("heavy", HEAVY) else plan["sizes"]
         vf = eqx.filter_jit(jax.vmap(lambda s, a, ns, k: f(env, s, a, ns, k)))
         for B in sizes:
             for rep in range(plan["batches"]):
@@ -571,7 +599,7 @@ class _EnvJudge:
                             ctx.monitor("permuted_members_not_bit_identical", nb)
         # ---- un-jitted filter_vmap (classic / finite MDP: cheap) or jitted (MuJoCo)
         B = plan.get("filter_vmap", 0)
-        if B and not (fn in HEAVY and not plan.get("filter_vmap_heavy", True)):
+        if B and not (fn in plan.get("heavy", HEAVY) and not plan.get("filter_vmap_heavy", True)):
             fv = eqx.filter_vmap(lambda s, a, ns, k: f(env, s, a, ns, k))
             if plan.get("filter_vmap_jit"):
                 fv = eqx.filter_jit(fv)
@@ -633,6 +661,11 @@ class _EnvJudge:
 _RAISED = object()
 
 
+def _kmode(mode):
+    """mode name used in violation keys: one key per mechanism, the batch size goes into the witness."""
+    return "vmap" if mode.startswith("vmap") else mode.replace("_", "-")
+
+
 class _Skip(Exception):
     """This configuration cannot be judged further (already reported)."""
 
@@ -649,11 +682,12 @@ def _plan(ctx, kind, heavy=False):
         return dict(N=ctx.n(8, 10 if heavy else 14), depth=ctx.n(4, 8), fns=fns, repeat=ctx.n(3, 6), eager=ctx.n(2, 3),
                     eager_heavy=(2 if small else 3), sizes=(1, 2, 7), sizes_heavy=((2, 7) if small else (1, 2, 7)),
                     batches=(1 if small else 2), filter_vmap=7, filter_vmap_jit=True, filter_vmap_heavy=not small,
-                    second_instance=True, closure_jit=2, closure_jit_heavy=False, clear_caches=True)
+                    second_instance=True, closure_jit=2, closure_jit_heavy=False, clear_caches=True,
+                    heavy=("initial", "transition", "step", "reset"))
     if kind == "g1":
         return dict(N=6, depth=2, fns=["initial", "transition", "observation", "reward", "terminal", "truncate"],
-                    repeat=3, eager=2, eager_heavy=0, sizes=(1, 2), sizes_heavy=(2,), batches=1, filter_vmap=0,
-                    second_instance=False, closure_jit=0, clear_caches=True)
+                    repeat=3, eager=2, eager_heavy=1, sizes=(1, 2), sizes_heavy=(2,), batches=1, filter_vmap=0,
+                    second_instance=False, closure_jit=0, clear_caches=True, heavy=("initial", "transition"))
     raise ValueError(kind)
 
 
@@ -677,6 +711,11 @@ def u_classic(ctx, name):
         p = _plan(ctx, "classic")
         p.update(N=8, fns=["transition", "step", "reward", "terminal"], disable_jit=0, batches=1, kseed=300)
         _run_env(ctx, f"{name}-Euler", env2, "classic", _tol_classic, p)
+        # the documented adaptive-step configuration: accept/reject decisions inside a vmapped while loop
+        env3 = getattr(cc, name)(stepsize_controller=diffrax.PIDController(rtol=1e-5, atol=1e-5))
+        p = _plan(ctx, "classic")
+        p.update(N=8, fns=["transition", "step"], disable_jit=0, batches=2, kseed=400, eager=2, eager_heavy=2)
+        _run_env(ctx, f"{name}-PID", env3, "classic", _tol_classic, p)
     ctx.require("jit_calls", 30)
     ctx.require("eager_calls", 10)
     ctx.require("vmapped_members_compared", 50)
@@ -811,14 +850,8 @@ def _field(path):
 
 def _perturb_floats(rng, tree, scale=1e-6):
     import jax
-    from jax import numpy as jnp
 
-    def p(x):
-        if isinstance(x, jax.Array) and jnp.issubdtype(x.dtype, jnp.floating):
-            return (x * (1 + scale * rng.uniform(-1, 1, size=x.shape))).astype(x.dtype)
-        return x
-
-    return jax.tree.map(p, tree)
+    return jax.tree.map(lambda x: _perturbed(rng, x, scale), tree)
 
 
 def _chaotic(ctx, single, env, pol, ss_e, cb, key_e, out_e, scale=1e-6):
@@ -828,6 +861,15 @@ def _chaotic(ctx, single, env, pol, ss_e, cb, key_e, out_e, scale=1e-6):
     import equinox as eqx
 
     dev, flipped = {}, False
+    try:  # the probe needs a reference that is a function of its arguments
+        o0 = single(_perturb_floats(ctx.rng, env, 0.0), _perturb_floats(ctx.rng, pol, 0.0), _perturb_floats(ctx.rng, ss_e, 0.0),
+                    cb, key_e)
+    except Exception:
+        return False, {}
+    ctx.monitor("repeat_calls_bit_compared")
+    if not _bits_equal(out_e, o0):
+        ctx.violation("single-env-collection-depends-on-call-history", {"after": "same argument values in rebuilt arrays"})
+        return False, {}
     for _ in range(3):
         pol_p = _perturb_floats(ctx.rng, pol, scale)
         env_p = _perturb_floats(ctx.rng, env, scale)
